@@ -169,6 +169,25 @@ def hDerived (fields : Cfg → List Field) (mapPath : String) (args : List Strin
         verdict (cl == "") cl
   some { model := showDerived m, verdict := v }
 
+/-- `cfg-start path=value …`: `dcp.NewDcp(cfg)` on a dead port = `ApplyDefaults` (no environment override set, a logger exists),
+    a print of a COPY, a failed connect.  The model of start-up is therefore `applyDefaults` alone; the observation is the dump of
+    the caller's struct followed by the three derived views computed FROM THAT RESULT.  Any other difference means start-up altered
+    a value the user had set (`Props/C17.C17_keeps_set` speaks about `applyDefaults`; this op ties "newDcp adds nothing to it"). -/
+def hStart (args : List String) (real : Option String) : Option Out := do
+  let c ← cfg? args
+  let model := match applyDefaults { total := "", member := "" } true c with
+    | none => "panic"
+    | some c1 =>
+      let view (fields : List Field) (mapPath : String) : String :=
+        showDerived (derive fields (mapOf (get c1 mapPath)))
+      dumpCfg c1 ++ " ;meta " ++ view (metadataFields c1) "metadata.config"
+        ++ " ;member " ++ view membershipFields "dcp.group.membership.config"
+        ++ " ;elector " ++ view electorFields "leaderElection.config"
+  let v := match real with
+    | none => "-"
+    | some r => if r = model then "ok" else "FAIL C17.start-alters-config"
+  some { model, verdict := v }
+
 def hFile (args : List String) (real : Option String) : Option Out := do
   let c ← cfg? args
   let m := match getFileMetadata c with
@@ -312,6 +331,7 @@ open GoDcp.Driver.Cfg GoDcp.Config
 
 def configHandlers : List (String × (List String → Option String → Option Out)) :=
   [("cfg-defaults", hDefaults),
+   ("cfg-start", hStart),
    ("cfg-meta", hDerived metadataFields "metadata.config"),
    ("cfg-member", hDerived (fun _ => membershipFields) "dcp.group.membership.config"),
    ("cfg-elector", hDerived (fun _ => electorFields) "leaderElection.config"),
